@@ -153,6 +153,49 @@ where
     out
 }
 
+/// The same unchecked precondition as D8 through another composition that type-checks: a tuple region of two
+/// `usize`-indexed regions has `Index = (usize, usize)` too, but its pairs are two unrelated indices, not a dense
+/// `(start, end)` range.  ops: hex w = push (w, w + 1); output as for `run_consec`, reads are the first field.
+fn run_consec_tuple(ops: &[&str]) -> Vec<U> {
+    use flatcontainer::impls::tuple::TupleABRegion;
+    use flatcontainer::MirrorRegion;
+    let mut r = ConsecutiveIndexPairs::<TupleABRegion<MirrorRegion<usize>, MirrorRegion<usize>>, Vec<usize>>::default();
+    let mut issued: Vec<usize> = vec![];
+    let mut out = vec![];
+    for op in ops {
+        match *op {
+            "c" | "m" => {
+                r.clear();
+                issued.clear();
+                out.push(U::None)
+            }
+            w => {
+                let w = usize::from_str_radix(w, 16).expect("width");
+                match caught(|| r.push((w, w.wrapping_add(1)))) {
+                    Some(i) => {
+                        issued.push(i);
+                        out.push(U::nat(i))
+                    }
+                    None => {
+                        out.push(U::L(vec![U::N(98)]));
+                        return out;
+                    }
+                }
+            }
+        }
+    }
+    let reads: Vec<U> = issued
+        .iter()
+        .map(|i| match caught(|| r.index(*i)) {
+            Some((a, b)) if b == a.wrapping_add(1) => U::Some(Box::new(U::nat(a))),
+            Some((a, _)) => U::Some(Box::new(U::L(vec![U::nat(a)]))),
+            None => U::None,
+        })
+        .collect();
+    out.push(U::L(reads));
+    out
+}
+
 pub fn run_span(kind: &str, ops: &[&str]) -> Option<Vec<U>> {
     Some(match kind {
         "iopt" => run_consec::<IndexOptimized>(ops),
@@ -160,6 +203,7 @@ pub fn run_span(kind: &str, ops: &[&str]) -> Option<Vec<U>> {
         "vec" => run_consec::<Vec<usize>>(ops),
         "fs_iopt" => run_stack::<IndexOptimized>(ops),
         "fs_ilist" => run_stack::<IndexList<Vec<u32>, Vec<u64>>>(ops),
+        "con_tup" => run_consec_tuple(ops),
         _ => return None,
     })
 }
